@@ -91,6 +91,7 @@ class Run:
         self.ops = []
         self.decls = []
         self.decoy_seed = None
+        self.traits = {}
         meths = set()
         for ln in lines:
             t = ln.split()
@@ -118,6 +119,8 @@ class Run:
                 pass
             elif t[0] == 'decoy':
                 self.decoy_seed = int(t[1])
+            elif t[0] == 'trait':
+                self.traits[int(t[1])] = set(t[2:])
             elif not self.parse_extra(t):
                 raise ValueError(f'bad scenario line {ln!r}')
         self.root = self.make_root(meths)
@@ -146,7 +149,15 @@ class Run:
                 _, cid, bases, names, kw, over = d
                 assert cid == len(self.classes)
                 bs = tuple(self.classes[b] for b in bases) or (self.root,)
-                cls = type(f'K{cid}', bs, {m: self.make_method(m, str(cid)) for m in over})
+                ns = {m: self.make_method(m, str(cid)) for m in over}
+                tr = self.traits.get(cid, ())
+                if 'eq' in tr or 'unhash' in tr:
+                    # value objects (dataclass style): all such handlers compare equal; `unhash`: and
+                    # define no __hash__ — the dispatcher must tell handlers apart by identity
+                    ns['_eq_group'] = True
+                    ns['__eq__'] = lambda a, b: getattr(b, '_eq_group', False)
+                    ns['__hash__'] = None if 'unhash' in tr else (lambda a: a._h)
+                cls = type(f'K{cid}', bs, ns)
                 cls = event_handler(*names, **kw)(cls)
                 self.classes.append(cls)
             else:
